@@ -105,3 +105,22 @@ def represent(a, rep):
     if rep == "list":
         return a.tolist()
     raise ValueError(rep)
+
+
+def array_args(kw, names=("region", "shape", "spacing")):
+    """Copy of kw in which the tuple / list valued entries `names` are numpy arrays (shape: integers), and a snapshot of them."""
+    import numpy as np
+
+    out = dict(kw)
+    for k in names:
+        v = out.get(k)
+        if isinstance(v, (tuple, list)):
+            out[k] = np.array(v) if k == "shape" else np.array(v, dtype=float)
+    snap = {k: (v.copy(), v.dtype) for k, v in out.items() if isinstance(v, np.ndarray) and k in names}
+    return out, snap
+
+
+def array_args_unchanged(kw, snap):
+    import numpy as np
+
+    return all(np.array_equal(kw[k], v) and kw[k].dtype == dt for k, (v, dt) in snap.items())
